@@ -31,6 +31,7 @@ EXTENDS Integers, Sequences, TLC
 CONSTANTS Dev,        \* subset of DevNames
           Alphabet,   \* sequence of tokens, each a non-empty sequence of code points
           MaxLen,     \* strings of at most MaxLen tokens are enumerated
+          Prune,      \* TRUE: texts that can no longer become acceptable are not extended (see Viable)
           DepthProbe  \* set of depth limits d for which parse_max_depth(., d) is compared
 
 DevNames == {"LenientNumber", "MissingComma", "PlusInUnicodeEscape",
@@ -74,30 +75,36 @@ Max(a, b) == IF a >= b THEN a ELSE b
 (***************************************************************************)
 (* Part 1.  RFC 8259                                                       *)
 (***************************************************************************)
-\* number = [ minus ] int [ frac ] [ exp ]          (section 6).  Result: index after the number, 0 = no number here.
+\* number = [ minus ] int [ frac ] [ exp ]          (section 6).  Result: index after the number, or, when there
+\* is no number here, MINUS the index of the offending character (beyond the end: the text stops too early).
 NumEnd(s, i) ==
   LET a == IF At(s, i) = 45 THEN i + 1 ELSE i
       b == IF At(s, a) = 48 THEN a + 1                                   \* int = zero / ( digit1-9 *DIGIT )
            ELSE IF At(s, a) >= 49 /\ At(s, a) <= 57 THEN SkipDigits(s, a + 1)
-           ELSE 0
-  IN  IF b = 0 THEN 0
+           ELSE 0 - a
+  IN  IF b < 0 THEN b
       ELSE LET c == IF At(s, b) # 46 THEN b                               \* frac = decimal-point 1*DIGIT
-                    ELSE IF IsDigit(At(s, b + 1)) THEN SkipDigits(s, b + 2) ELSE 0
-           IN  IF c = 0 THEN 0
+                    ELSE IF IsDigit(At(s, b + 1)) THEN SkipDigits(s, b + 2) ELSE 0 - (b + 1)
+           IN  IF c < 0 THEN c
                ELSE IF At(s, c) # 101 /\ At(s, c) # 69 THEN c            \* exp = e [ minus / plus ] 1*DIGIT
                ELSE LET e == IF At(s, c + 1) = 43 \/ At(s, c + 1) = 45 THEN c + 2 ELSE c + 1
-                    IN  IF IsDigit(At(s, e)) THEN SkipDigits(s, e + 1) ELSE 0
+                    IN  IF IsDigit(At(s, e)) THEN SkipDigits(s, e + 1) ELSE 0 - e
 
 IsNumberText(x) == NumEnd(x, 1) = Len(x) + 1
 
 Hex4(s, i) == IF IsHex(At(s, i)) /\ IsHex(At(s, i + 1)) /\ IsHex(At(s, i + 2)) /\ IsHex(At(s, i + 3))
               THEN HexVal(s[i]) * 4096 + HexVal(s[i + 1]) * 256 + HexVal(s[i + 2]) * 16 + HexVal(s[i + 3])
               ELSE -1
+\* where a failing match stops: the first character that does not fit (possibly just beyond the end)
+HexMis(s, i)     == CHOOSE k \in i..(i + 3) : ~IsHex(At(s, k)) /\ \A j \in i..(k - 1) : IsHex(At(s, j))
+WordMis(s, i, w) == i - 1 + CHOOSE k \in 1..Len(w) : At(s, i + k - 1) # w[k] /\ \A j \in 1..(k - 1) : At(s, i + j - 1) = w[j]
 
 \* escape = %x22 / %x5C / %x2F / %x62 / %x66 / %x6E / %x72 / %x74 / %x75 4HEXDIG     (section 7)
 SimpleEsc == (34 :> 34) @@ (92 :> 92) @@ (47 :> 47) @@ (98 :> 8) @@ (102 :> 12) @@ (110 :> 10) @@ (114 :> 13) @@ (116 :> 9)
 
-SFail == [ok |-> FALSE, i |-> 0, cps |-> <<>>, lone |-> FALSE]
+\* Failures carry `at`, the index of the character at which the text stops being a prefix of a JSON text;
+\* at > Len(s) means "ended too early" (some extension may still be JSON), at <= Len(s) means no extension is.
+SFailAt(p) == [ok |-> FALSE, i |-> 0, cps |-> <<>>, lone |-> FALSE, at |-> p]
 
 \* i = index of the next character inside the string; acc = characters decoded so far.
 \* unescaped = %x20-21 / %x23-5B / %x5D-10FFFF.  A \uD800-DBFF escape immediately followed by a
@@ -105,66 +112,66 @@ SFail == [ok |-> FALSE, i |-> 0, cps |-> <<>>, lone |-> FALSE]
 RECURSIVE StrBody(_, _, _, _)
 StrBody(s, i, acc, lone) ==
   LET c == At(s, i) IN
-  IF c = 34 THEN [ok |-> TRUE, i |-> i + 1, cps |-> acc, lone |-> lone]
+  IF c = 34 THEN [ok |-> TRUE, i |-> i + 1, cps |-> acc, lone |-> lone, at |-> 0]
   ELSE IF c = 92 THEN
     LET e == At(s, i + 1) IN
     IF e \in DOMAIN SimpleEsc THEN StrBody(s, i + 2, Append(acc, SimpleEsc[e]), lone)
     ELSE IF e = 117 THEN
       LET u == Hex4(s, i + 2) IN
-      IF u < 0 THEN SFail
+      IF u < 0 THEN SFailAt(HexMis(s, i + 2))
       ELSE IF IsHighSur(u) THEN
         LET u2 == IF At(s, i + 6) = 92 /\ At(s, i + 7) = 117 THEN Hex4(s, i + 8) ELSE -1 IN
         IF IsLowSur(u2) THEN StrBody(s, i + 12, Append(acc, Pair(u, u2)), lone)
         ELSE StrBody(s, i + 6, Append(acc, u), TRUE)
       ELSE IF IsLowSur(u) THEN StrBody(s, i + 6, Append(acc, u), TRUE)
       ELSE StrBody(s, i + 6, Append(acc, u), lone)
-    ELSE SFail
+    ELSE SFailAt(i + 1)
   ELSE IF c >= 32 /\ c <= 1114111 THEN StrBody(s, i + 1, Append(acc, c), lone)
-  ELSE SFail                                                    \* control character or end of input
+  ELSE SFailAt(i)                                               \* control character or end of input
 
-Fail == [ok |-> FALSE, i |-> 0, v |-> VNull, d |-> 0, lone |-> FALSE]
-R(i, v, d, lone) == [ok |-> TRUE, i |-> i, v |-> v, d |-> d, lone |-> lone]
+FailAt(p) == [ok |-> FALSE, i |-> 0, v |-> VNull, d |-> 0, lone |-> FALSE, at |-> p]
+R(i, v, d, lone) == [ok |-> TRUE, i |-> i, v |-> v, d |-> d, lone |-> lone, at |-> 0]
 
 \* value = false / null / true / object / array / number / string     (section 3); i is at its first character
 RECURSIVE PValue(_, _), PElems(_, _, _, _, _), PMembers(_, _, _, _, _, _)
 PValue(s, i) ==
   LET c == At(s, i) IN
   IF c = 34 THEN
-    LET r == StrBody(s, i + 1, <<>>, FALSE) IN IF r.ok THEN R(r.i, VStr(r.cps), 0, r.lone) ELSE Fail
+    LET r == StrBody(s, i + 1, <<>>, FALSE) IN IF r.ok THEN R(r.i, VStr(r.cps), 0, r.lone) ELSE FailAt(r.at)
   ELSE IF c = 91 THEN                           \* array = begin-array [ value *( value-separator value ) ] end-array
     LET j == SkipWs(s, i + 1) IN
     IF At(s, j) = 93 THEN R(j + 1, VArr(<<>>), 1, FALSE) ELSE PElems(s, j, <<>>, 0, FALSE)
   ELSE IF c = 123 THEN                          \* object = begin-object [ member *( value-separator member ) ] end-object
     LET j == SkipWs(s, i + 1) IN
     IF At(s, j) = 125 THEN R(j + 1, VObj(<<>>, <<>>), 1, FALSE) ELSE PMembers(s, j, <<>>, <<>>, 0, FALSE)
-  ELSE IF c = 116 THEN (IF Word(s, i, W_TRUE) THEN R(i + 4, VBool(TRUE), 0, FALSE) ELSE Fail)
-  ELSE IF c = 102 THEN (IF Word(s, i, W_FALSE) THEN R(i + 5, VBool(FALSE), 0, FALSE) ELSE Fail)
-  ELSE IF c = 110 THEN (IF Word(s, i, W_NULL) THEN R(i + 4, VNull, 0, FALSE) ELSE Fail)
+  ELSE IF c = 116 THEN (IF Word(s, i, W_TRUE) THEN R(i + 4, VBool(TRUE), 0, FALSE) ELSE FailAt(WordMis(s, i, W_TRUE)))
+  ELSE IF c = 102 THEN (IF Word(s, i, W_FALSE) THEN R(i + 5, VBool(FALSE), 0, FALSE) ELSE FailAt(WordMis(s, i, W_FALSE)))
+  ELSE IF c = 110 THEN (IF Word(s, i, W_NULL) THEN R(i + 4, VNull, 0, FALSE) ELSE FailAt(WordMis(s, i, W_NULL)))
   ELSE IF c = 45 \/ IsDigit(c) THEN
-    LET j == NumEnd(s, i) IN IF j = 0 THEN Fail ELSE R(j, VNum(SubSeq(s, i, j - 1)), 0, FALSE)
-  ELSE Fail
+    LET j == NumEnd(s, i) IN IF j < 0 THEN FailAt(0 - j) ELSE R(j, VNum(SubSeq(s, i, j - 1)), 0, FALSE)
+  ELSE FailAt(i)
 
 \* i is at the first character of an element; d = deepest element so far
 PElems(s, i, acc, d, lone) ==
   LET r == PValue(s, i) IN
-  IF ~r.ok THEN Fail
+  IF ~r.ok THEN r
   ELSE LET j == SkipWs(s, r.i)
            acc2 == Append(acc, r.v)
            d2 == Max(d, r.d)
            l2 == lone \/ r.lone
        IN  IF At(s, j) = 44 THEN PElems(s, SkipWs(s, j + 1), acc2, d2, l2)
            ELSE IF At(s, j) = 93 THEN R(j + 1, VArr(acc2), d2 + 1, l2)
-           ELSE Fail
+           ELSE FailAt(j)
 
 \* member = string name-separator value; i is at the first character of a member
 PMembers(s, i, ks, vs, d, lone) ==
-  IF At(s, i) # 34 THEN Fail
+  IF At(s, i) # 34 THEN FailAt(i)
   ELSE LET k == StrBody(s, i + 1, <<>>, FALSE) IN
-       IF ~k.ok THEN Fail
+       IF ~k.ok THEN FailAt(k.at)
        ELSE LET j == SkipWs(s, k.i) IN
-            IF At(s, j) # 58 THEN Fail
+            IF At(s, j) # 58 THEN FailAt(j)
             ELSE LET r == PValue(s, SkipWs(s, j + 1)) IN
-                 IF ~r.ok THEN Fail
+                 IF ~r.ok THEN r
                  ELSE LET m == SkipWs(s, r.i)
                           ks2 == Append(ks, k.cps)
                           vs2 == Append(vs, r.v)
@@ -172,11 +179,11 @@ PMembers(s, i, ks, vs, d, lone) ==
                           l2 == lone \/ k.lone \/ r.lone
                       IN  IF At(s, m) = 44 THEN PMembers(s, SkipWs(s, m + 1), ks2, vs2, d2, l2)
                           ELSE IF At(s, m) = 125 THEN R(m + 1, VObj(ks2, vs2), d2 + 1, l2)
-                          ELSE Fail
+                          ELSE FailAt(m)
 
 \* JSON-text = ws value ws     (section 2)
 Parse(s) == LET r == PValue(s, SkipWs(s, 1)) IN
-            IF r.ok THEN (IF SkipWs(s, r.i) = Len(s) + 1 THEN r ELSE Fail) ELSE Fail
+            IF r.ok THEN (IF SkipWs(s, r.i) = Len(s) + 1 THEN r ELSE FailAt(SkipWs(s, r.i))) ELSE r
 
 IsJson(s) == Parse(s).ok
 Denote(s) == Parse(s).v
@@ -200,8 +207,10 @@ BracketDepth(s) == Scan(s, 1, 0, 0, FALSE)
 (***************************************************************************)
 (* Part 2.  parser.rs                                                      *)
 (***************************************************************************)
-IFail == [ok |-> FALSE, i |-> 0, v |-> VNull]
-IR(i, v) == [ok |-> TRUE, i |-> i, v |-> v]
+\* as in Part 1, a failure carries `at`: the character the code stopped at (beyond the end = UnexpectedEOF-like:
+\* more input might still be accepted)
+IFailAt(p) == [ok |-> FALSE, i |-> 0, v |-> VNull, at |-> p]
+IR(i, v) == [ok |-> TRUE, i |-> i, v |-> v, at |-> 0]
 
 \* fn is_literal
 IsLiteralChar(c) == c # -1 /\ ~IsWs(c) /\ c # 44 /\ c # 125 /\ c # 93
@@ -228,30 +237,42 @@ IHex4(s, i) ==
   IF "PlusInUnicodeEscape" \in Dev /\ At(s, i) = 43 /\ IsHex(At(s, i + 1)) /\ IsHex(At(s, i + 2)) /\ IsHex(At(s, i + 3))
   THEN HexVal(s[i + 1]) * 256 + HexVal(s[i + 2]) * 16 + HexVal(s[i + 3])
   ELSE Hex4(s, i)
+IHexMis(s, i) ==
+  IF "PlusInUnicodeEscape" \in Dev /\ At(s, i) = 43
+  THEN CHOOSE k \in (i + 1)..(i + 3) : ~IsHex(At(s, k)) /\ \A j \in (i + 1)..(k - 1) : IsHex(At(s, j))
+  ELSE HexMis(s, i)
 
-ISFail == [ok |-> FALSE, i |-> 0, cps |-> <<>>]
+ISFailAt(p) == [ok |-> FALSE, i |-> 0, cps |-> <<>>, at |-> p]
 \* fn parse_string: one call per loop iteration
 RECURSIVE IString(_, _, _)
 IString(s, i, acc) ==
   LET c == At(s, i) IN
-  IF c = -1 THEN ISFail                                                  \* self.next()? at end of input
+  IF c = -1 THEN ISFailAt(i)                                             \* self.next()? at end of input
   ELSE IF c = 92 THEN
     LET e == At(s, i + 1) IN
     IF e \in DOMAIN SimpleEsc THEN IString(s, i + 2, Append(acc, SimpleEsc[e]))
     ELSE IF e = 117 THEN
       LET u == IHex4(s, i + 2) IN
-      IF u < 0 THEN ISFail
+      IF u < 0 THEN ISFailAt(IHexMis(s, i + 2))
       ELSE IF ~(IsHighSur(u) \/ IsLowSur(u)) THEN IString(s, i + 6, Append(acc, u))     \* char::from_u32 is Some
-      ELSE IF At(s, i + 6) # 92 \/ At(s, i + 7) # 117 THEN ISFail
+      ELSE IF At(s, i + 6) # 92 THEN ISFailAt(i + 6)
+      ELSE IF At(s, i + 7) # 117 THEN ISFailAt(i + 7)
       ELSE LET u2 == IHex4(s, i + 8) IN
-           IF u2 < 0 THEN ISFail
+           IF u2 < 0 THEN ISFailAt(IHexMis(s, i + 8))
            ELSE IF IsHighSur(u) /\ IsLowSur(u2) THEN IString(s, i + 12, Append(acc, Pair(u, u2)))   \* decode_utf16
-           ELSE ISFail
-    ELSE ISFail
-  ELSE IF c = 34 THEN [ok |-> TRUE, i |-> i + 1, cps |-> acc]
+           ELSE ISFailAt(i + 11)
+    ELSE ISFailAt(i + 1)
+  ELSE IF c = 34 THEN [ok |-> TRUE, i |-> i + 1, cps |-> acc, at |-> 0]
   ELSE IF (c >= 32 \/ "BugControlInString" \in Dev) THEN IString(s, i + 1, Append(acc, c))
-  ELSE ISFail
+  ELSE ISFailAt(i)
 
+\* Can a literal that is not (yet) valid become valid when more characters arrive?  Only a proper prefix of a
+\* word or of a number can.  (Under the deviations that widen the set of literals: assume yes.)
+IsProperPrefix(x, w) == Len(x) < Len(w) /\ \A k \in 1..Len(x) : x[k] = w[k]
+LiteralMayGrow(x) ==
+  \/ "LenientNumber" \in Dev \/ "BugLiteralPrefix" \in Dev
+  \/ IsProperPrefix(x, W_NULL) \/ IsProperPrefix(x, W_TRUE) \/ IsProperPrefix(x, W_FALSE)
+  \/ LET e == NumEnd(x, 1) IN e < 0 /\ (0 - e) > Len(x)
 \* fn parse_literal: s[i] is the character already consumed by parse_value
 ILiteral(s, i) ==
   LET j == LitEnd(s, i + 1)
@@ -261,7 +282,8 @@ ILiteral(s, i) ==
       ELSE IF x = W_FALSE THEN IR(j, VBool(FALSE))
       ELSE IF "BugLiteralPrefix" \in Dev /\ Word(x, 1, W_TRUE) THEN IR(j, VBool(TRUE))
       ELSE IF (IF "LenientNumber" \in Dev THEN RustFloat(x) ELSE IsNumberText(x)) THEN IR(j, VNum(x))
-      ELSE IFail
+      ELSE IF j > Len(s) /\ LiteralMayGrow(x) THEN IFailAt(j)            \* the literal runs to the end of the input
+      ELSE IFailAt(i)
 
 \* fn inc_depth
 DepthExceeded(dep, mx) == IF "BugDepthOffByOne" \in Dev THEN dep > mx ELSE dep = mx
@@ -271,48 +293,48 @@ RECURSIVE IValue(_, _, _, _), IArray(_, _, _, _, _), IObject(_, _, _, _, _, _, _
 IValue(s, i0, dep, mx) ==
   LET i == SkipWs(s, i0)
       c == At(s, i)
-  IN  IF c = -1 THEN IFail
-      ELSE IF c = 34 THEN LET r == IString(s, i + 1, <<>>) IN IF r.ok THEN IR(r.i, VStr(r.cps)) ELSE IFail
-      ELSE IF c = 91 THEN (IF DepthExceeded(dep, mx) THEN IFail ELSE IArray(s, i + 1, <<>>, dep + 1, mx))
-      ELSE IF c = 123 THEN (IF DepthExceeded(dep, mx) THEN IFail ELSE IObject(s, i + 1, <<>>, <<>>, FALSE, dep + 1, mx))
+  IN  IF c = -1 THEN IFailAt(i)
+      ELSE IF c = 34 THEN LET r == IString(s, i + 1, <<>>) IN IF r.ok THEN IR(r.i, VStr(r.cps)) ELSE IFailAt(r.at)
+      ELSE IF c = 91 THEN (IF DepthExceeded(dep, mx) THEN IFailAt(i) ELSE IArray(s, i + 1, <<>>, dep + 1, mx))
+      ELSE IF c = 123 THEN (IF DepthExceeded(dep, mx) THEN IFailAt(i) ELSE IObject(s, i + 1, <<>>, <<>>, FALSE, dep + 1, mx))
       ELSE ILiteral(s, i)
 
 \* fn parse_array, one call per iteration of its loop
 IArray(s, i0, acc, dep, mx) ==
   LET i == SkipWs(s, i0)
       c == At(s, i)
-  IN  IF c = -1 THEN IFail
-      ELSE IF c = 93 THEN (IF acc = <<>> \/ "BugArrayTrailingComma" \in Dev THEN IR(i + 1, VArr(acc)) ELSE IFail)
+  IN  IF c = -1 THEN IFailAt(i)
+      ELSE IF c = 93 THEN (IF acc = <<>> \/ "BugArrayTrailingComma" \in Dev THEN IR(i + 1, VArr(acc)) ELSE IFailAt(i))
       ELSE LET r == IValue(s, i, dep, mx) IN
-           IF ~r.ok THEN IFail
+           IF ~r.ok THEN r
            ELSE LET j == SkipWs(s, r.i)
                     acc2 == Append(acc, r.v)
                 IN  IF At(s, j) = 44 THEN IArray(s, j + 1, acc2, dep, mx)
                     ELSE IF At(s, j) = 93 THEN IR(j + 1, VArr(acc2))
-                    ELSE IFail
+                    ELSE IFailAt(j)
 
 \* fn parse_object, one call per iteration of its loop; tc = trailing_comma
 IObject(s, i0, ks, vs, tc, dep, mx) ==
   LET i == SkipWs(s, i0)
       c == At(s, i)
-  IN  IF c = -1 THEN IFail
-      ELSE IF c = 125 THEN (IF tc THEN IFail ELSE IR(i + 1, VObj(ks, vs)))
-      ELSE IF c = 44 THEN (IF tc \/ ks = <<>> THEN IFail ELSE IObject(s, i + 1, ks, vs, TRUE, dep, mx))
-      ELSE IF ks # <<>> /\ ~tc /\ "MissingComma" \notin Dev THEN IFail       \* the repair: a member needs its comma
-      ELSE IF c # 34 THEN IFail
+  IN  IF c = -1 THEN IFailAt(i)
+      ELSE IF c = 125 THEN (IF tc THEN IFailAt(i) ELSE IR(i + 1, VObj(ks, vs)))
+      ELSE IF c = 44 THEN (IF tc \/ ks = <<>> THEN IFailAt(i) ELSE IObject(s, i + 1, ks, vs, TRUE, dep, mx))
+      ELSE IF ks # <<>> /\ ~tc /\ "MissingComma" \notin Dev THEN IFailAt(i)  \* the repair: a member needs its comma
+      ELSE IF c # 34 THEN IFailAt(i)
       ELSE LET k == IString(s, i + 1, <<>>) IN
-           IF ~k.ok THEN IFail
+           IF ~k.ok THEN IFailAt(k.at)
            ELSE LET j == SkipWs(s, k.i) IN
-                IF At(s, j) # 58 THEN IFail
+                IF At(s, j) # 58 THEN IFailAt(j)
                 ELSE LET r == IValue(s, j + 1, dep, mx) IN
-                     IF ~r.ok THEN IFail
+                     IF ~r.ok THEN r
                      ELSE IF "BugMemberOrder" \in Dev
                           THEN IObject(s, r.i, <<k.cps>> \o ks, <<r.v>> \o vs, FALSE, dep, mx)
                           ELSE IObject(s, r.i, Append(ks, k.cps), Append(vs, r.v), FALSE, dep, mx)
 
 \* Value::parse_max_depth(s, mx): parse_value then expect_eof
 Impl(s, mx) == LET r == IValue(s, 1, 0, mx) IN
-               IF r.ok THEN (IF SkipWs(s, r.i) = Len(s) + 1 THEN r ELSE IFail) ELSE IFail
+               IF r.ok THEN (IF SkipWs(s, r.i) = Len(s) + 1 THEN r ELSE IFailAt(SkipWs(s, r.i))) ELSE r
 
 (***************************************************************************)
 (* Part 3.  serialize.rs                                                   *)
@@ -411,8 +433,17 @@ VARIABLES toks,   \* token indices (into Alphabet) of the string
           txt     \* its code points
 vars == <<toks, txt>>
 
+\* A text is viable when it is accepted or was rejected only because it ended (by the RFC definition or by the
+\* model of the code for some probed depth): only then can an extension of it be accepted by either.
+\* With Prune = TRUE only viable texts are extended, which removes most of the space (everything after the
+\* first offending character); Inv_DeadStaysDead, checked in the configurations with Prune = FALSE, is the
+\* lemma that justifies it.  The harness always enumerates the whole space.
+Viable(x) == LET p == Parse(x) IN
+             \/ p.ok \/ p.at > Len(x)
+             \/ \E d \in DepthProbe : LET m == Impl(x, d) IN m.ok \/ m.at > Len(x)
 Init == toks = <<>> /\ txt = <<>>
 Extend == /\ Len(toks) < MaxLen
+          /\ (Prune => Viable(txt)) = TRUE        \* (as a value: a disjunction inside an action would branch)
           /\ \E k \in 1..Len(Alphabet) : toks' = Append(toks, k) /\ txt' = txt \o Alphabet[k]
 Next == Extend
 Spec == Init /\ [][Next]_vars
@@ -451,6 +482,10 @@ Inv_Value         == ValueDenoted(txt, Parse(txt))
 Inv_DepthScan     == DepthScanAgrees(txt, Parse(txt))
 Inv_SerRoundTrip  == SerRoundTrip(Parse(txt))
 Inv_IndexLaws     == LET p == Parse(txt) IN (p.ok /\ ~p.lone) => IndexLaws(p.v)
+\* the pruning lemma: a text whose parent (the text without its last token) is not viable is not viable either -
+\* in particular it is neither JSON nor accepted by the model of the code
+TextOf(ts) == Concat([k \in 1..Len(ts) |-> Alphabet[ts[k]]])
+Inv_DeadStaysDead == (toks # <<>>) => (~Viable(TextOf(SubSeq(toks, 1, Len(toks) - 1))) => ~Viable(txt))
 \* all of them (used by the large configurations)
 Inv_C13 == LET p == Parse(txt) IN
            /\ ParserCorrect(txt, p) /\ DepthScanAgrees(txt, p) /\ SerRoundTrip(p)
